@@ -58,6 +58,9 @@ type outcome struct {
 	findings []finding
 	classes  []string
 	detail   string
+	phase2   string // second crash: how far the commit in progress in the restarted process had got
+	window2  string // second crash: after:<op> before:<op> of the restarted process ("" = none happened)
+	stage2   string // second crash: stage of the restart it fell into (construct / start / suffix)
 }
 
 type sigKey struct {
@@ -68,7 +71,27 @@ type sigKey struct {
 
 // runCrash runs the scenario, kills the subject immediately before its durable operation number cut (counted after
 // node construction), restarts it on the surviving images and runs a synchronous suffix. cut < 0: no crash.
-func runCrash(sc scenario, cut int, tail string) (out outcome) {
+func runCrash(sc scenario, cut int, tail string) outcome { return runCrash2(sc, cut, tail, -1, nil) }
+
+// families returns the clause families (R1..R4) among the findings of a run.
+func families(o outcome) map[string]bool {
+	m := map[string]bool{}
+	for _, f := range o.findings {
+		if strings.HasPrefix(f.key, "clause=R") {
+			m[f.key[7:9]] = true
+		}
+	}
+	return m
+}
+
+// runCrash2 additionally kills the RESTARTED process immediately before ITS durable operation number cut2 (counted
+// from the start of the restart: node construction, ConsensusState.Start with WAL catch-up, then the suffix) and
+// restarts it once more on what survives ("crash during recovery"). cut2 < 0: no second crash. inherited = the clause
+// families the FIRST crash alone already breaks at this crash point (from a single-crash run of the same case): the
+// damage of the first crash is permanent (e.g. a log that is one height ahead of the state), so the same family
+// failing again after the second restart is attributed to the first window - which the single-crash run reports - and
+// only families that fail BECAUSE of the second crash are reported here, keyed by the second crash's phase.
+func runCrash2(sc scenario, cut int, tail string, cut2 int, inherited map[string]bool) (out outcome) {
 	counter := &netsim.OpCounter{Cut: -1}
 	mem := memorydb.New()
 	wal := netsim.NewMemWAL(counter)
@@ -103,40 +126,58 @@ func runCrash(sc scenario, cut int, tail string) (out outcome) {
 	}
 	s.WriteWAL = true
 	s.HaltOnDeath = true
-	s.Died = func(i int) bool { return i == sc.Subject && counter.Dead }
+	live := counter // the counter of the subject's current process
+	s.Died = func(i int) bool { return i == sc.Subject && live.Dead }
 	if sc.NilRound {
 		s.Filter = func(to, from int, m consensus.Message) bool {
 			p, ok := m.(*consensus.ProposalMessage)
 			return ok && p.Proposal.Height == 2 && p.Proposal.Round == 1
 		}
 	}
-	// signatures: every request, and which of them became published (own message processed in a completed step)
+	// signatures: every request of a live process, and which of them became published (own message processed in a
+	// completed step). epoch = number of restarts so far.
 	epoch := 0
 	type sigRec struct {
 		netsim.SigRec
 		epoch int
 	}
+	type pubRec struct {
+		id    types.BlockID
+		epoch int
+	}
 	var sigs []sigRec
 	s.SigHook = func(node int, r netsim.SigRec) {
-		if node == sc.Subject {
-			sigs = append(sigs, sigRec{r, epoch})
+		if node == sc.Subject && epoch == 0 {
+			sigs = append(sigs, sigRec{r, 0})
 		}
 	}
-	published := map[sigKey]types.BlockID{}
+	published := map[sigKey]pubRec{}
 	s.OwnDone = func(node int, m consensus.Message) {
-		if node != sc.Subject || epoch != 0 {
+		if node != sc.Subject || live.Dead {
 			return
 		}
+		var k sigKey
+		var id types.BlockID
 		switch x := m.(type) {
 		case *consensus.VoteMessage:
-			k := "prevote"
+			kind := "prevote"
 			if x.Vote.Type != 1 { // kproto.PrevoteType == 1
-				k = "precommit"
+				kind = "precommit"
 			}
-			published[sigKey{k, x.Vote.Height, x.Vote.Round}] = x.Vote.BlockID
+			k, id = sigKey{kind, x.Vote.Height, x.Vote.Round}, x.Vote.BlockID
 		case *consensus.ProposalMessage:
-			published[sigKey{"proposal", x.Proposal.Height, x.Proposal.Round}] = x.Proposal.POLBlockID
+			k, id = sigKey{"proposal", x.Proposal.Height, x.Proposal.Round}, x.Proposal.POLBlockID
+		default:
+			return
 		}
+		if _, seen := published[k]; !seen { // the FIRST published message for that slot is what later ones must agree with
+			published[k] = pubRec{id, epoch}
+		}
+	}
+	// conflicts reports whether signature sg contradicts a message published by an EARLIER process of the subject
+	conflicts := func(sg sigRec) (types.BlockID, bool) {
+		p, okp := published[sigKey{sg.Kind, sg.Height, sg.Round}]
+		return p.id, okp && p.epoch < sg.epoch && netsim.ExactKey(p.id) != netsim.ExactKey(sg.BlockID)
 	}
 	var imgDB *memorydb.Database
 	var imgWAL []byte
@@ -153,7 +194,7 @@ func runCrash(sc scenario, cut int, tail string) (out outcome) {
 	lastApplied := uint64(0) // highest state height the subject had completed in a finished step
 	s.After = func() {
 		s.RegisterFromNodes()
-		if !counter.Dead {
+		if !live.Dead {
 			lastApplied = s.Nodes[sc.Subject].CS.VerifState().LastBlockHeight
 		}
 	}
@@ -177,96 +218,208 @@ func runCrash(sc scenario, cut int, tail string) (out outcome) {
 	out.phase = netsim.Phase(counter.Log)
 	// finding key: clause (+ cause for R3) + cache mode + how far the commit in progress had got. In keep-recent-state-in-
 	// memory mode a restart rolls the node back independently of the phase, so R3 there is keyed without a phase.
+	judged := 0 // which restart a finding is about (0: the current one)
 	add := func(clause, format string, a ...interface{}) {
+		e := epoch
+		if judged > 0 {
+			e = judged
+		}
+		if e > 1 && inherited[clause[:2]] {
+			out.classes = append(out.classes, "second-crash:"+clause[:2]+"-already-broken-by-first-crash")
+			return
+		}
 		phase := out.phase
+		if e > 1 {
+			phase = out.phase2 // how far the commit had got at the crash that preceded the process being judged
+		}
 		if (sc.Cache == "dirty" && strings.HasPrefix(clause, "R3")) || strings.HasPrefix(clause, "R3:other-proposal") || strings.HasPrefix(clause, "R4:stuck-after-own") {
 			phase = "any" // causes that do not depend on how far the commit had got
+		}
+		if e > 1 {
+			format = "[after the SECOND crash, window " + out.window2 + "] " + format
 		}
 		out.findings = append(out.findings, finding{fmt.Sprintf("clause=%s,cache=%s,phase=%s", clause, sc.Cache, phase), fmt.Sprintf(format, a...)})
 	}
 	preHeight := subj.CS.Height
-	// ---- restart on the surviving images, the way backend.go + ConsensusState.OnStart do
-	epoch = 1
-	dir, err := os.MkdirTemp("", "c05-wal-")
-	if err != nil {
-		out.findings = append(out.findings, finding{"harness", err.Error()})
-		return
-	}
-	defer os.RemoveAll(dir)
-	walPath, _ := netsim.MaterialiseWAL(dir, imgWAL)
+	appliedAt := []uint64{0, lastApplied} // appliedAt[e] = what the subject had applied completely when process e-1 died
 	var nn *netsim.Node
-	counter2 := &netsim.OpCounter{Cut: -1}
-	pv := &netsim.RecPV{PrivValidator: types.NewDefaultPrivValidator(s.Keys[sc.Subject]), OnSign: func(r netsim.SigRec) { sigs = append(sigs, sigRec{r, epoch}) }}
-	msg, frame = ev.Try(func() {
-		nn, err = netsim.NewNode(sc.Subject, s.G, s.Keys[sc.Subject], netsim.NodeOpts{DB: &netsim.RecDB{Database: imgDB, C: counter2}, Cache: cacheOf(sc.Cache), PV: pv, RootDir: dir})
-	})
-	if msg != "" {
-		add("R1", "restart panicked while building the node: %s (in %s)", msg, frame)
-		return
-	}
-	if err != nil {
-		add("R1", "restart failed: %v", err)
-		return
-	}
-	defer nn.Close()
-	// R2 (stores agree on one chain prefix), judged on the freshly opened stores
-	storeH := nn.BOps.Height()
-	stateH := nn.CS.VerifState().LastBlockHeight
-	if storeH != stateH {
-		add("R2", "after restart the block store is at %d and the consensus state at %d (no handshake brings them together)", storeH, stateH)
-	}
-	if _, err := nn.BC.StateAt(nn.BC.CurrentBlock().Height()); err != nil {
-		add("R2", "after restart the application state of head block %d cannot be opened: %v", nn.BC.CurrentBlock().Height(), err)
-	}
-	if sc.Cache == "archive" && stateH < lastApplied {
-		add("R2", "flush-every-block mode: restarted at state height %d although block %d had been applied completely before the crash", stateH, lastApplied)
-	}
-	for h := uint64(1); h <= storeH; h++ {
-		b := nn.BOps.LoadBlock(h)
-		for _, o := range s.Correct {
-			if o == sc.Subject {
-				continue
-			}
-			if ob := s.Nodes[o].BOps.LoadBlock(h); ob != nil && b != nil && ob.Hash() != b.Hash() {
-				add("R2", "restarted store holds another block at height %d than node %d", h, o)
-			}
+	var restartHeight uint64
+	var restartFP string
+	var dirs []string
+	defer func() {
+		for _, d := range dirs {
+			os.RemoveAll(d)
 		}
-	}
-	// real OnStart: opens the real WAL on the surviving file, catch-up replay, repair on corruption
-	var startErr error
-	msg, frame = ev.Try(func() {
-		startErr = nn.CS.Start()
-		nn.CS.Stop()
-		nn.CS.VerifWaitDone()
-	})
-	if msg != "" {
-		add("R1", "ConsensusState.Start panicked on the surviving files: %s (in %s)", msg, frame)
-		return
-	}
-	if startErr != nil {
-		add("R1", "ConsensusState.Start failed on the surviving files: %v", startErr)
-		return
-	}
-	data, _ := os.ReadFile(walPath)
-	nn.CS.VerifSetWAL(netsim.NewMemWALFrom(data, nil))
-	restartHeight := nn.CS.Height
-	restartFP := netsim.Fingerprint(nn)
-	s.Nodes[sc.Subject] = nn
-	s.Down[sc.Subject] = false
-	s.Halted = false
-	s.Died = nil
-	s.After = s.RegisterFromNodes
-	// ---- synchronous suffix
-	goal := s.MaxHeight(s.Correct) + 3
+	}()
+	var closers []*netsim.Node
+	defer func() {
+		for _, c := range closers {
+			c.Close()
+		}
+	}()
 	var ok bool
 	var why string
-	msg, frame = ev.Try(func() { ok, _, why = s.SyncRun(s.Correct, goal, 6000) })
+	goal := uint64(0)
+	stage := ""
+	closers = append(closers, subj) // replaced in s.Nodes below, so s.Close no longer reaches it
+	for {
+		// ---- restart on the surviving images, the way backend.go + ConsensusState.OnStart do
+		epoch++
+		myEpoch := epoch
+		dir, err := os.MkdirTemp("", "c05-wal-")
+		if err != nil {
+			out.findings = append(out.findings, finding{"harness", err.Error()})
+			return
+		}
+		dirs = append(dirs, dir)
+		walPath, _ := netsim.MaterialiseWAL(dir, imgWAL)
+		c := &netsim.OpCounter{Cut: -1}
+		if epoch == 1 && cut2 >= 0 {
+			c.Cut = cut2
+		}
+		live = c
+		liveDB := imgDB
+		var liveWAL *netsim.MemWAL // nil while the real file WAL of ConsensusState.Start is in use
+		var nextDB *memorydb.Database
+		var nextWAL []byte
+		c.OnCut = func() {
+			nextDB = netsim.CopyMem(liveDB)
+			if liveWAL != nil {
+				_, unsyncedRecs = liveWAL.Unsynced()
+				nextWAL = liveWAL.Image(tail)
+			} else {
+				nextWAL, _ = os.ReadFile(walPath) // what the dying process had handed to the file system
+			}
+		}
+		dead := func() bool { // the process died during this stage: its image is taken, go and restart on it
+			if !c.Dead {
+				return false
+			}
+			p := "START"
+			if len(c.Log) > 0 {
+				p = c.Log[len(c.Log)-1]
+			}
+			out.window2 = "after:" + p + " before:" + c.Next
+			out.stage2 = stage
+			out.phase2 = netsim.Phase(c.Log)
+			if stage == "start" && out.phase2 == "block-saved" {
+				// WAL operations of the real file WAL are not cut points: the next database operation after the block
+				// save belongs to ApplyBlock, so the #ENDHEIGHT record is already synced at this cut
+				out.phase2 = "endheight-synced"
+			}
+			appliedAt = append(appliedAt, lastApplied)
+			return true
+		}
+		pv := &netsim.RecPV{PrivValidator: types.NewDefaultPrivValidator(s.Keys[sc.Subject]), OnSign: func(r netsim.SigRec) {
+			if !c.Dead {
+				sigs = append(sigs, sigRec{r, myEpoch})
+			}
+		}}
+		stage = "construct"
+		msg, frame = ev.Try(func() {
+			nn, err = netsim.NewNode(sc.Subject, s.G, s.Keys[sc.Subject], netsim.NodeOpts{DB: &netsim.RecDB{Database: liveDB, C: c}, Cache: cacheOf(sc.Cache), PV: pv, RootDir: dir})
+		})
+		if nn != nil && msg == "" && err == nil {
+			closers = append(closers, nn)
+		}
+		if dead() {
+			imgDB, imgWAL = nextDB, nextWAL
+			continue
+		}
+		if msg != "" {
+			add("R1", "restart panicked while building the node: %s (in %s)", msg, frame)
+			return
+		}
+		if err != nil {
+			add("R1", "restart failed: %v", err)
+			return
+		}
+		// R2 (stores agree on one chain prefix), judged on the freshly opened stores
+		storeH := nn.BOps.Height()
+		stateH := nn.CS.VerifState().LastBlockHeight
+		if storeH != stateH {
+			add("R2", "after restart the block store is at %d and the consensus state at %d (no handshake brings them together)", storeH, stateH)
+		}
+		if _, err := nn.BC.StateAt(nn.BC.CurrentBlock().Height()); err != nil {
+			add("R2", "after restart the application state of head block %d cannot be opened: %v", nn.BC.CurrentBlock().Height(), err)
+		}
+		if sc.Cache == "archive" && stateH < lastApplied {
+			add("R2", "flush-every-block mode: restarted at state height %d although block %d had been applied completely before the crash", stateH, lastApplied)
+		}
+		for h := uint64(1); h <= storeH; h++ {
+			b := nn.BOps.LoadBlock(h)
+			for _, o := range s.Correct {
+				if o == sc.Subject {
+					continue
+				}
+				if ob := s.Nodes[o].BOps.LoadBlock(h); ob != nil && b != nil && ob.Hash() != b.Hash() {
+					add("R2", "restarted store holds another block at height %d than node %d", h, o)
+				}
+			}
+		}
+		// real OnStart: opens the real WAL on the surviving file, catch-up replay, repair on corruption
+		stage = "start"
+		var startErr error
+		// OnStart launches the real receive routine at its end; the harness owns the schedule, so the own messages the
+		// catch-up has queued are taken out before that routine starts (it then finds nothing to do until it is stopped)
+		// and are put back afterwards, in order. Without this the routine and Stop race for them.
+		var held []consensus.VerifMsgInfo
+		node := nn
+		node.Tick.OnStart = func() {
+			for {
+				mi, more := node.CS.VerifPopInternal()
+				if !more {
+					return
+				}
+				held = append(held, mi)
+			}
+		}
+		msg, frame = ev.Try(func() {
+			startErr = nn.CS.Start()
+			nn.CS.Stop()
+			nn.CS.VerifWaitDone()
+			node.Tick.OnStart = nil
+			for _, mi := range held {
+				node.CS.VerifPushInternal(mi)
+			}
+		})
+		if dead() {
+			imgDB, imgWAL = nextDB, nextWAL
+			continue
+		}
+		if msg != "" {
+			add("R1", "ConsensusState.Start panicked on the surviving files: %s (in %s)", msg, frame)
+			return
+		}
+		if startErr != nil {
+			add("R1", "ConsensusState.Start failed on the surviving files: %v", startErr)
+			return
+		}
+		data, _ := os.ReadFile(walPath)
+		liveWAL = netsim.NewMemWALFrom(data, c)
+		nn.CS.VerifSetWAL(liveWAL)
+		restartHeight = nn.CS.Height
+		restartFP = netsim.Fingerprint(nn)
+		s.Nodes[sc.Subject] = nn
+		s.Down[sc.Subject] = false
+		s.Halted = false
+		// ---- synchronous suffix
+		stage = "suffix"
+		if goal == 0 {
+			goal = s.MaxHeight(s.Correct) + 3
+		}
+		msg, frame = ev.Try(func() { ok, _, why = s.SyncRun(s.Correct, goal, 6000) })
+		if dead() {
+			imgDB, imgWAL = nextDB, nextWAL
+			goal = 0
+			continue
+		}
+		break
+	}
 	ownConflict := false
 	for _, sg := range sigs {
-		if sg.epoch != 0 {
-			if id, okp := published[sigKey{sg.Kind, sg.Height, sg.Round}]; okp && netsim.ExactKey(id) != netsim.ExactKey(sg.BlockID) {
-				ownConflict = true
-			}
+		if _, bad := conflicts(sg); bad {
+			ownConflict = true
 		}
 	}
 	if msg != "" {
@@ -291,18 +444,22 @@ func runCrash(sc scenario, cut int, tail string) (out outcome) {
 		if sg.epoch == 0 {
 			continue
 		}
-		signedAfter++
-		if id, okp := published[sigKey{sg.Kind, sg.Height, sg.Round}]; okp && netsim.ExactKey(id) != netsim.ExactKey(sg.BlockID) {
+		if sg.epoch == epoch {
+			signedAfter++
+		}
+		if id, bad := conflicts(sg); bad {
 			clause := "R3:resign-at-crash-height"
-			if sg.Height <= lastApplied {
+			if sg.Height <= appliedAt[sg.epoch] {
 				clause = "R3:resign-at-rolled-back-height" // it had applied that block completely and came back below it
 			}
 			if sg.Kind == "proposal" {
 				clause = "R3:other-proposal-after-restart" // same height/round, another block (its pool content is gone)
 			}
-			add(clause, "after the restart it signed a %s at %d/%d for %s, before the crash it had published one for %s", sg.Kind, sg.Height, sg.Round, short(sg.BlockID), short(id))
+			judged = sg.epoch
+			add(clause, "after restart #%d it signed a %s at %d/%d for %s, an earlier process had published one for %s", sg.epoch, sg.Kind, sg.Height, sg.Round, short(sg.BlockID), short(id))
 		}
 	}
+	judged = 0
 	// R4: same chain, app hash and consensus state as a node that never crashed
 	if msg == "" && ok {
 		ref := s.Nodes[s.Correct[0]]
@@ -342,6 +499,9 @@ func runCrash(sc scenario, cut int, tail string) (out outcome) {
 	if strings.Contains(out.window, "before:walsync[own-pre") {
 		out.classes = append(out.classes, "cut-between-signature-and-wal-sync")
 	}
+	if epoch > 1 {
+		out.classes = append(out.classes, "second-crash-during-"+out.stage2)
+	}
 	return
 }
 
@@ -380,8 +540,13 @@ func valDiff(a, b *types.ValidatorSet) string {
 
 var tails = []string{"none", "all", "records:1", "mid"}
 
-func report(t ev.TB, sc scenario, cut int, tail string, o outcome) {
+func report(t ev.TB, sc scenario, cut int, tail string, o outcome) { report2(t, sc, cut, tail, -1, o) }
+
+func report2(t ev.TB, sc scenario, cut int, tail string, cut2 int, o outcome) {
 	text := fmt.Sprintf("%s cut=%d tail=%s phase=%s window=%s %s", sc, cut, tail, o.phase, o.window, o.detail)
+	if o.window2 != "" {
+		text += fmt.Sprintf(" cut2=%d stage2=%s window2=%s", cut2, o.stage2, o.window2)
+	}
 	seen := map[string]bool{}
 	for _, f := range o.findings {
 		if seen[f.key] {
@@ -441,8 +606,18 @@ func TestCrashDrawn(t *testing.T) {
 		}
 		cut := rapid.IntRange(0, n-1).Draw(t, "cut")
 		tail := rapid.SampledFrom(tails).Draw(t, "tail")
+		cut2 := -1
+		if rapid.Bool().Draw(t, "second-crash") {
+			// recovery (construction + Start with catch-up) is 0-25 operations, one further height about 15 more
+			cut2 = rapid.IntRange(0, 60).Draw(t, "cut2")
+		}
 		o := runCrash(sc, cut, tail)
 		report(t, sc, cut, tail, o)
+		if cut2 >= 0 && o.crashed {
+			if o2 := runCrash2(sc, cut, tail, cut2, families(o)); o2.window2 != "" {
+				report2(t, sc, cut, tail, cut2, o2)
+			}
+		}
 	})
 }
 
@@ -496,4 +671,47 @@ func TestCrashEnum(t *testing.T) {
 	}
 	ev.Exhaustive()
 	ev.Note("enumeration", "every durable operation of the listed base runs x wal tails {none, all}")
+}
+
+// TestSecondCrashEnum: crash during recovery, enumerated. For every first crash point of two base runs (one per cache
+// mode; WAL tail lost) the restarted process is killed before each of its first durable operations (node construction,
+// ConsensusState.Start with WAL catch-up, and the first operations of the suffix) and restarted again.
+func TestSecondCrashEnum(t *testing.T) {
+	shard, shards := 0, 1
+	if v := os.Getenv("VERIF_SHARD"); v != "" {
+		fmt.Sscanf(v, "%d", &shard)
+		fmt.Sscanf(os.Getenv("VERIF_SHARDS"), "%d", &shards)
+	}
+	depth := ev.Scale("SECOND_DEPTH", 24)
+	stride := ev.Scale("FIRST_STRIDE", 1)
+	idx := 0
+	for _, sc := range []scenario{
+		{Powers: []int64{15, 15, 15, 15}, Subject: 0, Cache: "archive", Heights: 2, WithTxs: true},
+		{Powers: []int64{15, 15, 15, 15}, Subject: 2, Cache: "dirty", Heights: 2},
+	} {
+		n := runCrash(sc, -1, "none").ops
+		for cut := 0; cut < n; cut += stride {
+			// WAL tail lost / kept: with the unsynced tail kept the catch-up inside Start can reach the commit again, which
+			// puts database operations (= cut points) into the Start stage
+			for _, tail := range []string{"none", "all"} {
+				idx++
+				if idx%shards != shard {
+					continue
+				}
+				o := runCrash(sc, cut, tail)
+				if !o.crashed {
+					continue
+				}
+				fam := families(o)
+				for cut2 := 0; cut2 < depth; cut2++ {
+					o2 := runCrash2(sc, cut, tail, cut2, fam)
+					if o2.window2 == "" {
+						break // the restarted process performs fewer operations than that
+					}
+					report2(t, sc, cut, tail, cut2, o2)
+				}
+			}
+		}
+	}
+	ev.Note("second-crash enumeration", fmt.Sprintf("every first crash point (stride %d) of two base runs x wal tails {none, all} x the first %d durable operations of the restarted process", stride, depth))
 }
